@@ -77,6 +77,17 @@ func TestVerifFindMissing(t *testing.T) {
 		var items []item
 		var want []string
 		anyMissing := false
+		// per-case profile: which kinds of digests occur at all (a list whose only non-present
+		// digests are of one kind exercises the "nothing missing" shortcuts)
+		profile := []int{0, 1, 2, 3, 4}
+		switch rng.Intn(6) {
+		case 0:
+			profile = []int{0, 0, 0, 1} // present + present-with-other-size only
+		case 1:
+			profile = []int{0, 0, 0, 2} // present + back-end-only
+		case 2:
+			profile = []int{0} // everything present
+		}
 		for i := 0; i < n; i++ {
 			if len(items) > 0 && rng.Pct(10) { // duplicate of an earlier digest
 				it := items[rng.Intn(len(items))]
@@ -91,7 +102,7 @@ func TestVerifFindMissing(t *testing.T) {
 			data := rng.Bytes(1 + rng.Intn(3000))
 			d := &pb.Digest{Hash: vHash(data), SizeBytes: int64(len(data))}
 			it := item{tok: tok, dg: d}
-			switch rng.Intn(5) {
+			switch profile[rng.Intn(len(profile))] {
 			case 0: // present locally
 				if err := vPut(c, cache.CAS, d.Hash, data); err != nil {
 					t.Errorf("put: %v", err)
@@ -174,7 +185,7 @@ func TestVerifFindMissing(t *testing.T) {
 			cs.Violation("C10", "fm.wrong-answer", fmt.Sprintf("FindMissingCasBlobs returned %v (err %v), want %v", gotToks, err, want), sp)
 		}
 		if (ff == "miss") != anyMissing {
-			cs.Violation("C06", "fm.failfast", fmt.Sprintf("fail-fast presence check answered %s but missing=%v", ff, anyMissing), sp)
+			cs.Violation("*", "fm.failfast", fmt.Sprintf("fail-fast presence check answered %s but missing=%v", ff, anyMissing), sp)
 		}
 		if ci < 2 {
 			cs.Sample(cs.CaseOps())
